@@ -106,7 +106,7 @@ package dspinner
 //@   requires p != nil && pp != nil
 //@   modifies all
 //@   site[dirty_flag_first] invoke:Indexer.Delete : dirtyMarked()
-//@   site[record_deleted_last] invoke:Datastore.Delete : dirtyMarked() && (res("invoke:Indexer.Delete#0") == nil || res("invoke:Indexer.Delete#1") == nil) && (pp.Name != "" ==> res("invoke:Indexer.Delete#2") == nil)
+//@   site[record_deleted_last] invoke:Datastore.Delete : dirtyMarked() && muts() > old(muts()) && !faulted() == !old(faulted()) && (pp.Name != "" ==> !ix(p.nameIndex, pp.Name, pp.Id))
 //@   site[recursive_from_r_index] invoke:Indexer.Delete#0 : arg0 == p.cidRIndex && pp.Mode == ipfspinner.Recursive && arg3 == pp.Id
 //@   site[direct_from_d_index] invoke:Indexer.Delete#1 : arg0 == p.cidDIndex && arg3 == pp.Id
 //@   ensures[errors_are_faults] err != nil ==> faulted()
